@@ -137,7 +137,9 @@ def snapshot(obj, _depth=0):
     """Deep, byte-exact snapshot of nested arguments (arrays, indexes, dicts,
     lists, tuples, scalars)."""
     if isinstance(obj, numpy.ndarray):
-        return ("nd", obj.dtype.str, obj.shape, obj.tobytes() if obj.dtype != object else repr(obj.tolist()))
+        # (bytes, and what the caller can still do with its array afterwards: a cleared writeable flag is a change too)
+        return ("nd", obj.dtype.str, obj.shape, obj.tobytes() if obj.dtype != object else repr(obj.tolist()),
+                bool(obj.flags.writeable))
     if isinstance(obj, dict):
         items = tuple((snapshot(k, _depth + 1), snapshot(v, _depth + 1)) for k, v in dict.items(obj))
         attrs = ()
@@ -162,6 +164,8 @@ def snapshot_diff(a, b, path="arg"):
     if a[0] == "nd":
         if a[1] != b[1] or a[2] != b[2]:
             return "%s: dtype/shape %s%s -> %s%s" % (path, a[1], a[2], b[1], b[2])
+        if len(a) > 4 and len(b) > 4 and a[4] != b[4] and a[3] == b[3]:
+            return "%s: the array's writeable flag changed %s -> %s (same bytes)" % (path, a[4], b[4])
         x = numpy.frombuffer(a[3], dtype="u1") if isinstance(a[3], bytes) else None
         y = numpy.frombuffer(b[3], dtype="u1") if isinstance(b[3], bytes) else None
         if x is not None and y is not None and len(x) == len(y):
